@@ -359,7 +359,9 @@ class PSBaseParser:
         if self.hex:
             self._curtoken += bytes((int(self.hex, 16),))
         self._parse1 = self._parse_literal
-        return i
+        # Continue with the rest of the name right away, so that a name ending
+        # in an escape at the very end of the input is still flushed at EOF.
+        return self._parse_literal(s, i)
 
     def _parse_number(self, s: bytes, i: int) -> int:
         m = END_NUMBER.search(s, i)
